@@ -19,7 +19,7 @@ func init() {
 			"H264 frames A: 12 shapes of up to 10 packets mixing single NAL units, STAP-A and FU-A trains (reference encoder); frames B: single / STAP-A / FU-A train / FU-A train + single / FU-A trains whose start, middle or end fragment carries no payload octets (also among the A shapes); Annex-B and AVC output",
 			"AV1 frames A: 8 OBU sequences packetized by AV1Payloader at small MTUs into up to 10 packets with Z/Y chains; frames B start with Z=0, with and without N=1",
 			"large abandoned fragments: a fragmented unit / OBU of 70 KB, 1 MiB + 1 KB and 3 MB whose end (or start, or one middle fragment) is lost, at MTU 1200, followed by each frame-B shape; for H264 also abandoned units that leave 2^16..2^22 minus {0,1,600,1197,1199} bytes buffered, followed by a frame B with full-size fragments",
-			"ALL loss subsets of A (2^n, n <= 10) delivered in order; garbage: every sequence of up to 2 strings before frame A and 0-1 string between the delivered part of A and frame B, from an 8 (H264) / 12 (AV1) string corpus (nil, empty, orphan fragments, truncated aggregation, start of a never-finished fragment)",
+			"ALL loss subsets of A (2^n, n <= 10) delivered in order; thorough: a second damaged frame (H264 shapes 3, s2, E; the first three packets of three AV1 shapes) behind the first, the loss subsets running over both (n <= 13), and garbage prefixes also for frames of up to 8 packets; garbage: every sequence of up to 2 strings before frame A and 0-1 string between the delivered part of A and frame B, from an 8 (H264) / 12 (AV1) string corpus (nil, empty, orphan fragments, truncated aggregation, start of a never-finished fragment)",
 		},
 		Scenarios: []mc.Scenario{
 			{Name: "h264-loss-then-intact-frame", Tiers: "qt", ShardDepth: 4, Run: c15H264},
@@ -137,8 +137,14 @@ func c15H264(c *mc.Ctx) {
 	b := mc.From(c, c15H264B)
 	frameA := c15H264Frame(a, 1)
 	frameB := c15H264Frame(b, 2)
+	if c.Thorough() {
+		// a second damaged frame behind the first: the loss subsets run over both
+		a2 := mc.From(c, []string{"", "3", "s2", "E"})
+		frameA = append(frameA, c15H264Frame(a2, 3)...)
+		a += "+" + a2
+	}
 	garbage := c15Garbage(c, c15H264Garbage)
-	if len(garbage) > 0 && len(frameA) > 6 {
+	if len(garbage) > 0 && len(frameA) > 6 && (!c.Thorough() || len(frameA) > 8) {
 		return // long frames only without a garbage prefix (bounds the product)
 	}
 	mask := c.Pick(1 << uint(len(frameA)))
@@ -201,8 +207,19 @@ func c15AV1(c *mc.Ctx) {
 	if len(frameB) == 0 || frameB[0][0]&0x80 != 0 {
 		panic(mc.EngineError{Msg: "frame B does not start with Z=0"})
 	}
+	if c.Thorough() {
+		// a second damaged frame behind the first
+		if k := c.Pick(4); k > 0 {
+			s2 := shapes[[]int{0, 2, 4}[k-1]]
+			f2 := cloneAll((&codecs.AV1Payloader{}).Payload(uint16(s2.mtu), ref.AV1Stream(s2.obus, false)))
+			if len(f2) > 3 {
+				f2 = f2[:3]
+			}
+			frameA = append(frameA, f2...)
+		}
+	}
 	garbage := c15Garbage(c, c15AV1Garbage)
-	if len(garbage) > 0 && len(frameA) > 6 {
+	if len(garbage) > 0 && len(frameA) > 6 && (!c.Thorough() || len(frameA) > 8) {
 		return
 	}
 	mask := c.Pick(1 << uint(len(frameA)))
